@@ -31,6 +31,25 @@ def c02(tier, seed, work):
     tour_stage(rep, work, "single-2k", "MC_Store",
                store_consts(CfgName="single", OpNames=CORE_OPS - {"ListBuckets"}),
                ["singlemem", "singleos"], **st)
+    # two directory levels sharing the first (d/e/x, d/y): deleting the deepest must not take its parents' other entries
+    tour_stage(rep, work, "deep-keys", "MC_Store",
+               store_consts(Buckets={"bkt1"}, KeySetName="deep", Bodies={"x1"}, OpNames=CORE_OPS - {"HeadBucket", "ListBuckets", "CopyObject"}),
+               ALL4, **st)
+    tour_stage(rep, work, "deep-keys-single", "MC_Store",
+               store_consts(Buckets={"bkt1"}, KeySetName="deep", Bodies={"x1"}, CfgName="single",
+                            OpNames=CORE_OPS - {"HeadBucket", "ListBuckets", "CopyObject", "CreateBucket", "DeleteBucket"}),
+               ["singlemem", "singleos"], **st)
+    # keys that are the directory of a stored key (d, d/e next to d/x, d/e/x): never written, but read and deleted like
+    # any other missing key
+    tour_stage(rep, work, "directory-keys", "MC_Store",
+               store_consts(Buckets={"bkt1"}, KeySetName="dirkey", Bodies={"x1"},
+                            OpNames={"CreateBucket", "DeleteBucket", "PutObject", "GetObject", "HeadObject", "DeleteObject",
+                                     "DeleteMulti", "CopyObject", "ListObjects"}),
+               ALL4, **st)
+    tour_stage(rep, work, "directory-keys-single", "MC_Store",
+               store_consts(Buckets={"bkt1"}, KeySetName="dirkey", Bodies={"x1"}, CfgName="single",
+                            OpNames={"PutObject", "GetObject", "HeadObject", "DeleteObject", "DeleteMulti", "CopyObject", "ListObjects"}),
+               ["singlemem", "singleos"], **st)
     # beyond the listed operations: forced bucket deletion (x-minio-force-delete) and conditional reads (If-None-Match)
     tour_stage(rep, work, "force-delete-cond-get", "MC_Store",
                store_consts(Buckets={"bkt1"}, Bodies={"x1", "x2"},
@@ -41,6 +60,11 @@ def c02(tier, seed, work):
                store_consts(CfgName="single", Buckets={"bkt1"}, Bodies={"x1"},
                             OpNames={"DeleteBucket", "ForceDelete", "PutObject", "DeleteObject", "GetObject", "ListObjects"}),
                ["singlemem", "singleos"], **st)
+    # the Go API path: the same histories through the Backend methods, without the HTTP front end (harness/api.go)
+    tour_stage(rep, work, "go-api-store", "MC_Store",
+               store_consts() if thorough else store_consts(KeySetName="nest2", Bodies={"x1"}), ALL4, addr="api", **st)
+    tour_stage(rep, work, "go-api-single", "MC_Store",
+               store_consts(CfgName="single", OpNames=CORE_OPS - {"ListBuckets"}), ["singlemem", "singleos"], addr="api", **st)
     # empty bodies and the browser-form upload path
     tour_stage(rep, work, "post-empty", "MC_Store",
                store_consts(Buckets={"bkt1"}, Bodies={"x1"}, WithEmpty=True,
@@ -91,6 +115,10 @@ def c05(tier, seed, work):
     tour_stage(rep, work, "ver-1k-2v", "MC_Store",
                store_consts(Buckets={"bkt1"}, KeySetName="a", CfgName="mem", OpNames=VER_OPS, MaxVids=2, Ghosts=False),
                ["mem"], **st)
+    # the Go API path: VersionedBackend methods called directly
+    tour_stage(rep, work, "go-api-ver-1k-2v", "MC_Store",
+               store_consts(Buckets={"bkt1"}, KeySetName="a", CfgName="mem", OpNames=VER_OPS, MaxVids=2, Ghosts=False),
+               ["mem"], addr="api", **st)
     # three versions, without the status-reading operations
     tour_stage(rep, work, "ver-1k-3v", "MC_Store",
                store_consts(Buckets={"bkt1"}, KeySetName="a", CfgName="mem", Bodies={"x1"}, MaxVids=3, Ghosts=False,
@@ -140,6 +168,12 @@ def c03(tier, seed, work):
                ["multimem", "multios"], invariants=["EmitInv"], **common)
     tour_stage(rep, work, "single", "MC_List", list_consts(MaxSet=n, FsDomain=True, Delims={0, 47}, CfgName="single"),
                ["singlemem", "singleos"], invariants=["EmitInv"], **common)
+    # the Go API path: Backend.ListBucket called directly
+    tour_stage(rep, work, "go-api-kv", "MC_List", list_consts(MaxSet=n), ["mem", "bolt"], invariants=["EmitInv"], addr="api", **common)
+    tour_stage(rep, work, "go-api-fs", "MC_List", list_consts(MaxSet=n, FsDomain=True, Delims={0, 47}),
+               ["multimem", "multios"], invariants=["EmitInv"], addr="api", **common)
+    tour_stage(rep, work, "go-api-single", "MC_List", list_consts(MaxSet=n, FsDomain=True, Delims={0, 47}, CfgName="single"),
+               ["singlemem", "singleos"], invariants=["EmitInv"], addr="api", **common)
     # keys with dot-leading segments (.a, a/.b, .a/b): legal keys that look like hidden files to an fs backend
     tour_stage(rep, work, "dot-segments", "MC_List",
                list_consts(Alphabet={46, 47, 97}, MaxSet=2, MaxLen=3, PrefixLen=1, FsDomain=True, Delims={0, 47}),
@@ -171,6 +205,9 @@ def c04(tier, seed, work):
     tour_stage(rep, work, "mem-markers", "MC_List",
                list_consts(MaxSet=3 if tier == "thorough" else 2, MaxLen=3, PrefixLen=1, Delims={0, 47}, CfgName="mem", Markers=True),
                ["mem"], invariants=["EmitInv"], view=None, emit=None, tlc_workers=8)
+    tour_stage(rep, work, "go-api-mem-markers", "MC_List",
+               list_consts(MaxSet=2, MaxLen=3, PrefixLen=1, Delims={0, 47}, CfgName="mem", Markers=True),
+               ["mem"], invariants=["EmitInv"], view=None, emit=None, tlc_workers=8, addr="api")
     # fallback path of the non-paginating backends: complete listing, IsTruncated=false
     walk_stage(rep, work, "fallback-walks", "MC_List",
                list_consts(MaxSet=2, MaxLen=2, PrefixLen=1, Delims={0, 47}, FsDomain=True),
@@ -432,6 +469,11 @@ def c01(tier, seed, work):
                store_consts(Buckets={"bkt1"}, KeySetName="nest2", Bodies={"x1"}, Ghosts=False,
                             OpNames={"CreateBucket", "PutMetaB", "PutMeta", "CopyMeta", "CopyObject", "GetObject", "HeadObject"}),
                ALL4, small=True, invariants=STORE_INVS, properties=["ReadYourWrite", "Frame"])
+    # overwrites whose metadata headers carry empty values (the acknowledged, empty, value is what reads return)
+    tour_stage(rep, work, "empty-metadata-values", "MC_Store",
+               store_consts(Buckets={"bkt1"}, KeySetName="a", Bodies={"x1"}, Ghosts=False,
+                            OpNames={"CreateBucket", "PutMetaB", "PutMeta", "PutMetaE", "PostMeta", "CopyObject", "GetObject", "HeadObject"}),
+               ALL4, small=True, invariants=STORE_INVS, properties=["ReadYourWrite", "Frame"])
     st = dict(invariants=STORE_INVS, properties=["ReadYourWrite", "Frame"])
     consts = store_consts(Buckets={"bkt1"}, KeySetName="nest2", Bodies={"x1", "x2"}, WithEmpty=True, OpNames=ops, Ghosts=False)
     for integ, o in ((True, ""), (False, "nointegrity")):
@@ -508,8 +550,11 @@ def c07(tier, seed, work):
     # the same under the Go race detector with more clients; first-witness (depth-first) search
     conc_stage(rep, work, "race-6-8", ["mem", "bolt", "multimem"], [6, 8], runs=3 if thorough else 2, ops=8, keys=3,
                gated=False, race=True, witness=True)
+    # many clients, single-key operations only: decided key by key (linearizability is local), under the race detector
+    conc_stage(rep, work, "race-16-per-key", allsys, [12, 16], runs=4 if thorough else 1, ops=8 if thorough else 5, keys=3,
+               gated=False, race=True, witness=True, local=True)
     if thorough:
-        conc_stage(rep, work, "race-16", allsys, [12, 16], runs=2, ops=6, keys=3, gated=False, race=True, witness=True)
+        conc_stage(rep, work, "race-12", allsys, [10, 12], runs=2, ops=4, keys=3, gated=False, race=True, witness=True)
         for s2 in range(3):
             rep.seed = seed + 100 + s2
             conc_stage(rep, work, "small-exact-seed%d" % s2, allsys, [2, 3, 4], runs=6, ops=14, keys=2, gated=True)
@@ -519,6 +564,7 @@ def c07(tier, seed, work):
         "linearizability, torn reads, lost updates are decided by TLC on the recorded histories",
         "copy is modelled as two linearization points (read source, write destination), as the code performs it",
         "histories with more than 4 clients are checked by first-witness search; an undecided history is counted inconclusive, never a violation",
+        "histories of 12-16 clients use single-key operations only and are decided per key (locality of linearizability)",
     ]
     return rep
 
